@@ -13,7 +13,7 @@ import contextlib
 import sourmash
 from sourmash import MinHash, SourmashSignature
 from sourmash.command_sketch import _parse_params_str, _signatures_for_sketch_factory
-from sourmash.command_compute import ComputeParameters
+from sourmash.command_sketch import ComputeParameters     # the copy the sketch factory uses
 from sourmash import signature as sigmod
 from sourmash._lowlevel import lib
 
@@ -75,6 +75,58 @@ def add_all(objs, seqs, input_kind, force):
                 obj.add_sequence(s, force)
 
 
+def hexs(t):
+    return t.encode("latin-1").hex() if t else "-"
+
+
+def run_names(w):
+    """names <file|first|singleton|merge:NAMEHEX> <k> F <fnamehex> <namehex>:<seqhex>.. F ..
+    the real `_execute_sketch` (-> _compute_individual / _compute_merged) on FASTA files written to a
+    temp dir under .build/tmp; what it saved: name|filename|md5 per signature, in order"""
+    import argparse, os, shutil, tempfile
+    from sourmash.command_sketch import _execute_sketch
+    mode, k = w[1], int(w[2])
+    files, cur = [], None
+    for t in w[3:]:
+        if t == "F":
+            cur = None
+        elif cur is None:
+            cur = (unhex(t), [])
+            files.append(cur)
+        else:
+            n, q = t.split(":")
+            cur[1].append((unhex(n), unhex(q)))
+    base = os.path.join(os.environ.get("VERIF_BUILD") or os.path.join(os.path.dirname(os.path.dirname(
+        os.path.dirname(os.path.abspath(__file__)))), ".build"), "tmp")
+    os.makedirs(base, exist_ok=True)
+    tmp = tempfile.mkdtemp(prefix="c14names", dir=base)
+    old = os.getcwd()
+    try:
+        os.chdir(tmp)
+        for fname, recs in files:
+            with open(fname, "w") as fh:
+                for n, q in recs:
+                    fh.write(f">{n}\n{q}\n")
+        merge = unhex(mode.split(":")[1]) if mode.startswith("merge:") else ""
+        args = argparse.Namespace(filenames=[f for f, _ in files], output="out.sig", output_dir=None, merge=merge,
+                                  singleton=(mode == "singleton"), name_from_first=(mode == "first"),
+                                  input_is_protein=False, check_sequence=False, license="CC0", force=True,
+                                  quiet=True, randomize=False, from_file=None)
+        factory = _signatures_for_sketch_factory([f"k={k},scaled=1"], "dna")
+        try:
+            _execute_sketch(args, factory)
+        except SystemExit as e:
+            return f"err SystemExit"
+        got = []
+        if os.path.exists("out.sig"):
+            for ss in sourmash.load_file_as_signatures("out.sig"):
+                got.append(f"{hexs(ss.name)}|{hexs(ss.filename)}|{ss.md5sum()}")
+        return "ok " + ";".join(got)
+    finally:
+        os.chdir(old)
+        shutil.rmtree(tmp, ignore_errors=True)
+
+
 def main():
     out = sys.stdout
     quiet = io.StringIO()
@@ -109,6 +161,13 @@ def main():
                                            dna=bool(dna), num_hashes=num, track_abundance=bool(tr), scaled=scaled)
                     sig = SourmashSignature.from_params(cp)
                     res = "ok " + "|".join(params_rec(m) for m in sketches_of(sig)[0])
+                elif op == "setname" and len(w) == 3:
+                    from sourmash.command_sketch import set_sig_name      # the copy `sketch` uses
+                    sig = _signatures_for_sketch_factory(["k=5,scaled=1"], "dna")()[0]
+                    set_sig_name([sig], unhex(w[1]), None if w[2] == "none" else unhex(w[2]))
+                    res = f"ok {hexs(sig.name)}|{hexs(sig.filename)}"
+                elif op == "names" and len(w) >= 3:
+                    res = run_names(w)
                 elif op == "feed":
                     # feed <defmol> <split> <dna|protein> <force> P <hex>.. D <k:mol:num:scaled:track:seed>.. S <hexseq>..
                     dm, split, kind, force = mol_arg(w[1]), bool(int(w[2])), w[3], bool(int(w[4]))
@@ -124,13 +183,14 @@ def main():
                         except BaseException as e:           # noqa: BLE001
                             ferr = exc_name(e)
                         F, M = [], []
-                        for s in sigs:
+                        for s in ([] if ferr else sigs):
                             mhs, md5s = sketches_of(s)
                             F += [content_rec(m, d) for m, d in zip(mhs, md5s)]
                             # the other exit: sig.minhash (first sketch only), md5 through a fresh signature
                             m1 = s.minhash
                             M.append(content_rec(m1, SourmashSignature(m1).md5sum()))
-                        fpart = " ".join(F) + " M " + " ".join(M) + (f" FERR {ferr}" if ferr else "")
+                        # after an error the command exits: what the sketches hold is not observable
+                        fpart = f"FERR {ferr}" if ferr else " ".join(F) + " M " + " ".join(M)
                     except BaseException as e:               # noqa: BLE001
                         fpart = "err " + exc_name(e)
                     D, direct = [], []
@@ -147,10 +207,11 @@ def main():
                         add_all([m for m in direct if not isinstance(m, str)], seqs, kind, force)
                     except BaseException as e:               # noqa: BLE001
                         derr = exc_name(e)
-                    for m in direct:
-                        D.append(m if isinstance(m, str) else content_rec(m, SourmashSignature(m).md5sum()))
                     if derr:
-                        D.append("DERR:" + derr)
+                        D = ["DERR:" + derr]
+                    else:
+                        for m in direct:
+                            D.append(m if isinstance(m, str) else content_rec(m, SourmashSignature(m).md5sum()))
                     res = "feed F " + fpart + " D " + " ".join(D)
                 else:
                     res = "bad-op"
